@@ -83,7 +83,6 @@ proof('C18',
       'DESIGN.md 5 C18')
 
 for _p, _r in {
-    'C03': 'check not built yet',
     'C04': 'check not built yet',
 
     'C13': 'check not built yet',
@@ -148,3 +147,14 @@ bounded('C12',
         'DESIGN.md 5 C12',
         'bounded scope for the rounding functions themselves (no Level-A proof of simple_round/deep_round bodies); no NaN; one-shot iterables outside the scope.',
         TECH_B + '; wrapper clauses by pyvc + z3')
+
+bounded('C03',
+        'Bounded (not a proof): 11 archive configurations driven through the whole mapping protocol against a Python dict: every '
+        'operation from every prior state with <=2 (thorough: <=3) keys, plus seeded operation sequences without reset; after each '
+        'operation the result/exception, the contents, len(), and the contents of an archive stored under another name are compared; '
+        'un-encodable values must leave the contents unchanged; copy(name) must be equal and independent; == must compare contents; the '
+        'null archive must discard writes.',
+        'DESIGN.md 5 C03',
+        'bounded scope; two known findings (dir_archive key aliasing; dir_archive(serialized=False) import-based reader) are listed in '
+        'known_findings.json; hdf and sqlalchemy backends are not installed and not covered; no Level-A proof of the archive methods.',
+        TECH_B.replace('deal contracts on sidecar wrappers of the real functions', 'run-time contract monitor (dict refinement) on the real archive objects'))
